@@ -49,5 +49,18 @@ func Registry() []*Spec {
 		Quick: map[string]int{}, Thorough: map[string]int{},
 		Covers: []string{"true", "false"}, UnitDepth: 3,
 		Note: "multi-valued sub-paths on both sides (@.a[*] op @.b[*], 1..3 symbolic int64 each): true iff some combination satisfies the operator"})
+	// ---- C14: JSONPath and script text round-trip
+	add(Spec{Property: "C14", Name: "VerifC14_Keys", Pkg: "jp",
+		Quick: map[string]int{"K": 2}, Thorough: map[string]int{"K": 3},
+		Covers: []string{"done"}, UnitDepth: 4,
+		Note: "Child(k) for every key of <= K symbolic bytes, 5 positions (first, after root, after child, after descent, in a union), String() and BracketString(): parses, fragment-wise equal, prints identically"})
+	add(Spec{Property: "C14", Name: "VerifC14_Numbers", Pkg: "jp",
+		Quick: map[string]int{"NB": 99}, Thorough: map[string]int{"NB": 999999},
+		Covers: []string{"done"}, UnitDepth: 7,
+		Note: "Nth, Slice (2 and 3 numbers), integer union members: symbolic ints in [-NB,NB] plus min/max int64 and 0; strconv.AppendInt contract stub, the real readInt"})
+	add(Spec{Property: "C14", Name: "VerifC14_Equations", Pkg: "jp",
+		Quick: map[string]int{"OPS": 3, "SLIM": 1}, Thorough: map[string]int{"OPS": 3},
+		Covers: []string{"true", "false"}, UnitDepth: 4,
+		Note: "every typed equation tree with <= OPS operators over == < >= && || ! + - *, leaves @.a @.b @.c and a symbolic int constant: (quick: == && || ! - * only) Equation.String() through MustParseEquation and the Filter/Script printer through ParseString: parses, prints identically, and evaluates identically for all a,b,c in [-4,3], p,q bool"})
 	return r
 }
